@@ -32,6 +32,36 @@ use num_bigint::BigInt;
 /// Prevents a RLN ZK proof generated for one application to be re-used in another one.
 pub const RLN_IDENTIFIER: &[u8] = b"zerokit/rln/010203040506070809";
 
+/// Byte length of a serialized zk-proof followed by its proof values, i.e.
+/// `[ proof<128> | root<32> | external_nullifier<32> | x<32> | y<32> | nullifier<32> ]`
+const PROOF_AND_VALUES_SIZE: usize = 128 + 5 * 32;
+
+/// Reads the proof values which follow the 128 bytes of a serialized zk-proof.
+/// Inputs which are too short are rejected.
+fn read_proof_values(serialized: &[u8]) -> Result<RLNProofValues> {
+    if serialized.len() < PROOF_AND_VALUES_SIZE {
+        return Err(Report::msg("input is too short to contain a proof and its values"));
+    }
+    let (proof_values, _) = deserialize_proof_values(&serialized[128..]);
+    Ok(proof_values)
+}
+
+/// Reads `[ signal_len<8> | signal<var> ]` which follow a proof and its values.
+fn read_signal(serialized: &[u8]) -> Result<&[u8]> {
+    let mut all_read = PROOF_AND_VALUES_SIZE;
+    if serialized.len() < all_read + 8 {
+        return Err(Report::msg("input is too short to contain the signal length"));
+    }
+    let signal_len = usize::try_from(u64::from_le_bytes(
+        serialized[all_read..all_read + 8].try_into()?,
+    ))?;
+    all_read += 8;
+    if signal_len > serialized.len() - all_read {
+        return Err(Report::msg("signal is shorter than its declared length"));
+    }
+    Ok(&serialized[all_read..all_read + signal_len])
+}
+
 /// The RLN object.
 ///
 /// It implements the methods required to update the internal Merkle Tree, generate and verify RLN ZK proofs.
@@ -798,9 +828,8 @@ impl RLN {
         // [ proof<128> | root<32> | external_nullifier<32> | x<32> | y<32> | nullifier<32> ]
         let mut input_byte: Vec<u8> = Vec::new();
         input_data.read_to_end(&mut input_byte)?;
+        let proof_values = read_proof_values(&input_byte)?;
         let proof = ArkProof::deserialize_compressed(&mut Cursor::new(&input_byte[..128]))?;
-
-        let (proof_values, _) = deserialize_proof_values(&input_byte[128..]);
 
         let verified = verify_proof(&self.verification_key, &proof, &proof_values)?;
 
@@ -956,22 +985,13 @@ impl RLN {
     pub fn verify_rln_proof<R: Read>(&self, mut input_data: R) -> Result<bool> {
         let mut serialized: Vec<u8> = Vec::new();
         input_data.read_to_end(&mut serialized)?;
-        let mut all_read = 0;
+        let proof_values = read_proof_values(&serialized)?;
+        let signal = read_signal(&serialized)?;
         let proof =
             ArkProof::deserialize_compressed(&mut Cursor::new(&serialized[..128].to_vec()))?;
-        all_read += 128;
-        let (proof_values, read) = deserialize_proof_values(&serialized[all_read..]);
-        all_read += read;
-
-        let signal_len = usize::try_from(u64::from_le_bytes(
-            serialized[all_read..all_read + 8].try_into()?,
-        ))?;
-        all_read += 8;
-
-        let signal: Vec<u8> = serialized[all_read..all_read + signal_len].to_vec();
 
         let verified = verify_proof(&self.verification_key, &proof, &proof_values)?;
-        let x = hash_to_field(&signal);
+        let x = hash_to_field(signal);
 
         // Consistency checks to counter proof tampering
         Ok(verified && (self.tree.root() == proof_values.root) && (x == proof_values.x))
@@ -1031,24 +1051,15 @@ impl RLN {
     pub fn verify_with_roots<R: Read>(&self, mut input_data: R, mut roots_data: R) -> Result<bool> {
         let mut serialized: Vec<u8> = Vec::new();
         input_data.read_to_end(&mut serialized)?;
-        let mut all_read = 0;
+        let proof_values = read_proof_values(&serialized)?;
+        let signal = read_signal(&serialized)?;
         let proof =
             ArkProof::deserialize_compressed(&mut Cursor::new(&serialized[..128].to_vec()))?;
-        all_read += 128;
-        let (proof_values, read) = deserialize_proof_values(&serialized[all_read..]);
-        all_read += read;
-
-        let signal_len = usize::try_from(u64::from_le_bytes(
-            serialized[all_read..all_read + 8].try_into()?,
-        ))?;
-        all_read += 8;
-
-        let signal: Vec<u8> = serialized[all_read..all_read + signal_len].to_vec();
 
         let verified = verify_proof(&self.verification_key, &proof, &proof_values)?;
 
         // First consistency checks to counter proof tampering
-        let x = hash_to_field(&signal);
+        let x = hash_to_field(signal);
         let partial_result = verified && (x == proof_values.x);
 
         // We skip root validation if proof is already invalid
@@ -1067,7 +1078,7 @@ impl RLN {
         let fr_size = fr_byte_size();
 
         // We read the buffer and convert to Fr as much as we can
-        all_read = 0;
+        let mut all_read = 0;
         while all_read + fr_size <= roots_serialized.len() {
             let (root, read) = bytes_le_to_fr(&roots_serialized[all_read..]);
             all_read += read;
@@ -1279,13 +1290,13 @@ impl RLN {
         let mut serialized: Vec<u8> = Vec::new();
         input_proof_data_1.read_to_end(&mut serialized)?;
         // We skip deserialization of the zk-proof at the beginning
-        let (proof_values_1, _) = deserialize_proof_values(&serialized[128..]);
+        let proof_values_1 = read_proof_values(&serialized)?;
         let external_nullifier_1 = proof_values_1.external_nullifier;
 
         let mut serialized: Vec<u8> = Vec::new();
         input_proof_data_2.read_to_end(&mut serialized)?;
         // We skip deserialization of the zk-proof at the beginning
-        let (proof_values_2, _) = deserialize_proof_values(&serialized[128..]);
+        let proof_values_2 = read_proof_values(&serialized)?;
         let external_nullifier_2 = proof_values_2.external_nullifier;
 
         // We continue only if the proof values are for the same external nullifier (which includes epoch and rln identifier)
